@@ -171,6 +171,8 @@ def outcome_class(c, obs):
 def oracle(c, obs):
     if obs.startswith("panic") or obs.startswith("DRIVER-DIED") or obs == "NO-OUTPUT":
         return "no panic; observed " + obs[:80]
+    if "!earlier-result-changed" in obs:
+        return "the bytes an earlier Get returned changed when a later Get was made (a caller that keeps a result, as Config.load does, no longer holds the stored value)"
     want = ref_run(c["line"])
     got = obs.split(" ") if obs else []
     if got != want:
